@@ -4,6 +4,7 @@
   (same rendering as VerifDumpAST).
 -/
 import Jmes.Ast
+import Jmes.Typed
 import Driver.Num64
 namespace Jmes.Codec
 
@@ -100,6 +101,71 @@ def parseCanonKVs : Nat → List Char → Option (List (Bytes × Val F64v) × Li
       | _, _ => none
     | _ => none
 end
+
+/-! Typed documents (C18): the canonical form extended with `S{name:v,…}` (struct,
+    fields in declaration order), `P0` (nil pointer), `P<v>` (pointer), `L[…]` (typed slice). -/
+
+open Jmes.Typed in
+mutual
+def parseTyped : Nat → List Char → Option (TVal F64v × List Char)
+  | 0, _ => none
+  | fuel + 1, cs =>
+    match cs with
+    | 'n' :: 'u' :: 'l' :: 'l' :: r => some (.null, r)
+    | 't' :: 'r' :: 'u' :: 'e' :: r => some (.bool true, r)
+    | 'f' :: 'a' :: 'l' :: 's' :: 'e' :: r => some (.bool false, r)
+    | 'n' :: r => let (h, r') := takeHex r; some (.num ⟨(hexToNat h).toUInt64⟩, r')
+    | 's' :: r => let (h, r') := takeHex r; (unhexChars h).map (fun bs => (.str bs, r'))
+    | '[' :: ']' :: r => some (.arr [], r)
+    | '[' :: r => (parseTypedList fuel r).map (fun (xs, r') => (.arr xs, r'))
+    | 'L' :: '[' :: ']' :: r => some (.slice [], r)
+    | 'L' :: '[' :: r => (parseTypedList fuel r).map (fun (xs, r') => (.slice xs, r'))
+    | '{' :: '}' :: r => some (.obj [], r)
+    | '{' :: r => (parseTypedKVs fuel true r).map (fun (kvs, r') => (.obj kvs, r'))
+    | 'S' :: '{' :: '}' :: r => some (.struct [], r)
+    | 'S' :: '{' :: r => (parseTypedKVs fuel false r).map (fun (kvs, r') => (.struct kvs, r'))
+    | 'P' :: '0' :: r => some (.nilptr, r)
+    | 'P' :: r => (parseTyped fuel r).map (fun (v, r') => (.ptr v, r'))
+    | _ => none
+def parseTypedList : Nat → List Char → Option (List (TVal F64v) × List Char)
+  | 0, _ => none
+  | fuel + 1, cs =>
+    match parseTyped fuel cs with
+    | some (v, ',' :: r) => (parseTypedList fuel r).map (fun (vs, r') => (v :: vs, r'))
+    | some (v, ']' :: r) => some ([v], r)
+    | _ => none
+def parseTypedKVs : Nat → Bool → List Char → Option (List (Bytes × TVal F64v) × List Char)
+  | 0, _, _ => none
+  | fuel + 1, sorted, cs =>
+    match cs with
+    | 's' :: r =>
+      let (h, r1) := takeHex r
+      match unhexChars h, r1 with
+      | some k, ':' :: r2 =>
+        (match parseTyped fuel r2 with
+         | some (v, ',' :: r3) =>
+           (parseTypedKVs fuel sorted r3).map (fun (kvs, r') => ((if sorted then insertT k v kvs else (k, v) :: kvs), r'))
+         | some (v, '}' :: r3) => some ([(k, v)], r3)
+         | _ => none)
+      | _, _ => none
+    | _ => none
+end
+
+def readTyped (s : String) : Option (Typed.TVal F64v) :=
+  match parseTyped (s.length + 1) s.toList with
+  | some (v, []) => some v
+  | _ => none
+
+/-- `unicode.ToUpper` on the first rune, for ASCII and the Latin-1 supplement
+    (what the typed stream's field names need; the library function itself is
+    not modelled). -/
+def capFirst : Bytes → Bytes
+  | c :: rest =>
+    if 0x61 ≤ c ∧ c ≤ 0x7A then (c - 0x20) :: rest
+    else match c, rest with
+      | 0xC3, d :: rest' => if 0xA0 ≤ d ∧ d ≤ 0xBE ∧ d ≠ 0xB7 then 0xC3 :: (d - 0x20) :: rest' else c :: rest
+      | _, _ => c :: rest
+  | [] => []
 
 def readCanon (s : String) : Option (Val F64v) :=
   match parseCanon (s.length + 1) s.toList with
